@@ -887,6 +887,25 @@ func (it *Interp) step(i int, op *Op) {
 			it.step(i, &o)
 		}
 
+	case "xlag":
+		// macro: a long stretch of hub blocks without any external observation (the projected external height runs
+		// ahead), a batch, then a fresh observation showing the external chain was slower, another batch of the same
+		// token (lower timeout than the older one), and the external clock moving to somewhere around both timeouts
+		seq := []Op{{K: "send", U: op.U, C: op.C, D: op.D, A: op.A, F: op.F, R: op.R}}
+		for k := 0; k < op.N; k++ {
+			seq = append(seq, Op{K: "block", T: 5})
+		}
+		seq = append(seq, Op{K: "reqbatch", C: op.C, D: op.D}, Op{K: "block", T: 5}, Op{K: "hb", C: op.C}, Op{K: "block", T: 5},
+			Op{K: "send", U: op.U, C: op.C, D: op.D, A: op.A, F: op.F, R: op.R + 1}, Op{K: "reqbatch", C: op.C, D: op.D}, Op{K: "block", T: 5},
+			Op{K: "tick", C: op.C, N: op.C2}, Op{K: "hb", C: op.C}, Op{K: "block", T: 5}, Op{K: "block", T: 5})
+		for _, o := range seq {
+			if it.Failed() {
+				break
+			}
+			o := o
+			it.step(i, &o)
+		}
+
 	case "xtick":
 		w.Height += uint64(op.N)
 		it.step(i, &Op{K: "hb", C: op.C})
